@@ -27,7 +27,18 @@ from bacpypes.pdu import Address
 from bacpypes.primitivedata import Null, Real, Double, Unsigned, Integer, BitString, CharacterString, OctetString, Date, Time, Enumerated, Atomic
 from bacpypes.basetypes import DateTime, BinaryPV, DoorValue
 from bacpypes.constructeddata import Any
-from bacpypes.apdu import ReadPropertyRequest, WritePropertyRequest, ReadPropertyACK
+from bacpypes.apdu import ReadPropertyRequest, WritePropertyRequest, ReadPropertyACK, SubscribeCOVRequest
+from bacpypes.service.cov import ChangeOfValueServices
+
+
+class CovDevApp(DevApp, ChangeOfValueServices):
+    """the device also offers SubscribeCOV: change-of-value detection hooks into the same present value the minimum
+    on/off mechanism watches"""
+    _startup_disabled = True
+
+    def __init__(self, world, cfg, device):
+        DevApp.__init__(self, world, cfg, device)
+        ChangeOfValueServices.__init__(self)
 
 ID = 'C17'
 LEVEL = 'exploration'
@@ -187,7 +198,7 @@ class Run(c15.Run):
             self.dev = None
             self._app = Application(make_device({'name': 'dev', 'addr': 20}))
         else:
-            self.dev = VlanStack(w, stack_cfg('dev', 20, 'server', retries=2, tout=2000, tseg=500), lan, app_class=DevApp)
+            self.dev = VlanStack(w, stack_cfg('dev', 20, 'server', retries=2, tout=2000, tseg=500), lan, app_class=CovDevApp if desc.get('cov') else DevApp)
             self._app = self.dev.app
         cls = get_class(desc['cls'])
         kind, dom = CLASSES[desc['cls']]
@@ -246,6 +257,12 @@ class Run(c15.Run):
             r.propertyValue = a
         elif op['op'] == 'read':
             r = ReadPropertyRequest(objectIdentifier=self.objid, propertyIdentifier=op['prop'])
+        elif op['op'] == 'cov':
+            # subscribe (unconfirmed notifications, finite lifetime) or cancel
+            r = SubscribeCOVRequest(subscriberProcessIdentifier=1, monitoredObjectIdentifier=self.objid)
+            if op.get('lifetime') is not None:
+                r.issueConfirmedNotifications = False
+                r.lifetime = op['lifetime']
         else:
             raise ValueError(op['op'])
         r.pduDestination = Address(20)
@@ -370,6 +387,9 @@ def check(desc, run, res):
         except Tie:
             run.w.probe('tie_rest_of_run_discarded')
             break
+        if op['op'] == 'cov':
+            run.w.probe('cov_ops')
+            continue
         if op['op'] == 'cmd':
             exp = m.command(t, op['value'], op.get('prio'))
             if got != exp:
@@ -471,6 +491,14 @@ def gen_desc(seed, idx):
         r = dict(r)
         r['gap'] = rng.choice([0.0, 12.19]) if binary else 0.0
         ops.append(r)
+    if mode == 'wire' and binary and rng.random() < 0.35:
+        # somebody subscribes to changes of the object and the subscription ends (cancelled or expired) in mid-history
+        d['cov'] = True
+        i_ = rng.randrange(len(ops) + 1)
+        ops.insert(i_, {'op': 'cov', 'lifetime': rng.choice([2, 5, 30]), 'gap': 0.0})
+        if rng.random() < 0.6:
+            j_ = rng.randrange(i_ + 1, len(ops) + 1)
+            ops.insert(j_, {'op': 'cov', 'lifetime': None, 'gap': rng.choice([0.0, 0.53])})
     d['ops'] = ops
     if mode == 'wire':
         d['faults'] = fault_profile(rng, 2.0, 0.5, allow_none=0.5)
@@ -551,7 +579,7 @@ def units(tier, seed):
             us.append({'kind': 'enum', 'must': True, 'cls': c, 'length': 1, 'mod': 1, 'rem': 0})
             us.append({'kind': 'enum', 'must': True, 'cls': c, 'length': 2, 'mod': 1, 'rem': 0})
             us.append({'kind': 'enum', 'must': True, 'cls': c, 'length': 1, 'mod': 1, 'rem': 0, 'mode': 'wire'})
-        n = 500
+        n = 1200
     else:
         for c in names:
             for ln in (1, 2, 3):
